@@ -2,7 +2,11 @@
 """For every seeded change under /verif/seeded (or the ones named on the command line) apply its patch to
 /repo, run the quick tier of the given checks (default: all 20), undo the patch, and record which checks
 report a violation in meta.json (caught_by / missed_by).  Sequential: /repo is shared state.
-usage: seed_matrix.py [--checks C01,C05] [name ...]"""
+usage: seed_matrix.py [--checks C01,C05] [--own] [--scratch] [name ...]
+  --own      run only the check of the seed's own property plus the checks already listed in caught_by
+  --scratch  work on a scratch worktree of /repo and a scratch copy of /verif under /tmp (PYTHONPATH points the
+             checks at the worktree), so that /repo and /verif/evidence stay untouched while the matrix runs"""
+import shutil
 import json
 import os
 import subprocess
@@ -20,25 +24,41 @@ def main():
         i = args.index("--checks")
         checks = args[i + 1].split(",")
         del args[i:i + 2]
+    own = "--own" in args
+    if own:
+        args.remove("--own")
+    repo, here, env = REPO, HERE, dict(os.environ)
+    if "--scratch" in args:
+        args.remove("--scratch")
+        repo, here = "/tmp/mut/matrix_repo", "/tmp/mut/matrix_verif"
+        subprocess.run(["git", "-C", REPO, "worktree", "remove", "--force", repo], capture_output=True)
+        shutil.rmtree(here, ignore_errors=True)
+        subprocess.run(["git", "-C", REPO, "worktree", "add", "--detach", repo, "HEAD"], check=True, capture_output=True)
+        subprocess.run(["rsync", "-a", "--exclude", ".git", "--exclude", "replays", "--exclude", "seeded", HERE + "/", here + "/"], check=True)
+        env["PYTHONPATH"] = repo
     names = args or sorted(os.listdir(SEEDED))
+    all_checks = checks
     for name in names:
         d = os.path.join(SEEDED, name)
         meta_p = os.path.join(d, "meta.json")
         if not os.path.exists(meta_p):
             continue
         meta = json.load(open(meta_p))
-        st = subprocess.run(["git", "-C", REPO, "status", "--porcelain", "--untracked-files=no"], capture_output=True, text=True).stdout.strip()
+        checks = all_checks
+        if own:
+            checks = sorted(set([meta["property"]] + meta.get("caught_by", [])))
+        st = subprocess.run(["git", "-C", repo, "status", "--porcelain", "--untracked-files=no"], capture_output=True, text=True).stdout.strip()
         if st:
             print("refusing: /repo dirty")
             return 2
-        r = subprocess.run(["git", "-C", REPO, "apply", os.path.join(d, "patch.diff")], capture_output=True, text=True)
+        r = subprocess.run(["git", "-C", repo, "apply", os.path.join(d, "patch.diff")], capture_output=True, text=True)
         if r.returncode != 0:
             print(name, "patch does not apply:", r.stderr[:200])
             continue
         caught, missed, detail = [], [], {}
         try:
             for c in checks:
-                p = subprocess.run(["./run", c, "--tier", "quick"], cwd=HERE, capture_output=True, text=True)
+                p = subprocess.run(["./run", c, "--tier", "quick"], cwd=here, capture_output=True, text=True, env=env)
                 lines = p.stdout.splitlines()
                 first = ""
                 for i, l in enumerate(lines):
@@ -53,14 +73,18 @@ def main():
                 else:
                     detail[c] = "machinery exit %d: %s" % (p.returncode, (p.stderr.strip().splitlines() or [""])[-1][:200])
         finally:
-            subprocess.run(["git", "-C", REPO, "checkout", "--", "."], check=True)
-            subprocess.run(["git", "-C", HERE, "checkout", "--", "evidence"], check=False)
+            subprocess.run(["git", "-C", repo, "checkout", "--", "."], check=True)
+            if here == HERE:
+                subprocess.run(["git", "-C", HERE, "checkout", "--", "evidence"], check=False)
         meta["caught_by"] = sorted(set(meta.get("caught_by", [])) - set(checks) | set(caught))
         meta["missed_by"] = sorted((set(meta.get("missed_by", [])) - set(checks)) | set(missed))
         meta.setdefault("first_violation", {}).update(detail)
         meta["matrix_cmd"] = "tools/seed_matrix.py (git -C /repo apply patch.diff; ./run <ID> --tier quick; git -C /repo checkout -- .)"
         json.dump(meta, open(meta_p, "w"), indent=1)
         print(name, "caught by", caught, flush=True)
+    if repo != REPO:
+        subprocess.run(["git", "-C", REPO, "worktree", "remove", "--force", repo], capture_output=True)
+        shutil.rmtree(here, ignore_errors=True)
     return 0
 
 
